@@ -260,6 +260,11 @@ func index(fr *frame, instr *ssa.Index) value {
 // symConvHook handles conversions involving symbolic data.
 func symConvHook(i *interpreter, utDst, utSrc types.Type, x value) (value, bool) {
 	switch xv := x.(type) {
+	case numStr:
+		if b, ok := utDst.(*types.Basic); ok && b.Kind() == types.String {
+			return xv, true
+		}
+		panic(unsupported("conversion of a decimal spelling"))
 	case sym:
 		if b, ok := utDst.(*types.Basic); ok {
 			if b.Info()&types.IsNumeric != 0 {
